@@ -13,12 +13,21 @@
   * `verdict_iff`, `verdict_error_iff`, `verdict_propagates`, `verdict_vs_signer`: `validate_ksr`
     answers OK exactly when the signer's KSR validation and the token-less chain validation accept,
     ERROR exactly on a policy violation of either, and lets every other failure through uncaught.
+  * (work package B5) the rest of the receiver: `fingerprint_text`, `entry_not_lowercase_never_admits` (what
+    a whitelist entry must look like to admit anybody), `loadTls_*` / `loadKsrSection_*` and the `*_current_tree`
+    theorems (configuration model against the regenerated tables: `require_client_cert` has no default,
+    `max_size > 0`, the defaults), `tls_cert_reqs` / `tls_requires_client_cert_current_tree` (what the TLS
+    server is told), and the `POST /upload` route behind the middleware: `upload_refused_unlisted`,
+    `upload_gate_failure`, `upload_page_iff`, `upload_ok_iff_signer_ok`, `upload_effects_order`,
+    `upload_disk_needs_listed_and_gates`, `upload_writes_confined` (path confinement end to end, for every request).
 -/
 import Kskm.Wksr
+import Kskm.WksrConfig
 import Kskm.FileEffects
 import KskmGen.Tables
 import KskmProofs.Lemmas.C20Wash
 import KskmProofs.Lemmas.C17Load
+import KskmProofs.C17
 namespace Kskm.C20
 open Kskm.Wksr
 
@@ -430,5 +439,501 @@ example : validateKsr anyVerifier 0 (.ok { exPol with numBundles := 9 }) none (.
 /-- … and an uncaught failure for an unparsable upload or an unloadable previous SKR. -/
 example : validateKsr anyVerifier 0 (.ok exPol) none (err .value) = err .value := by decide +kernel
 example : validateKsr anyVerifier 0 (.ok exPol) (some (err .runtime)) (.ok exReq) = err .runtime := by decide +kernel
+
+/-! # The rest of the receiver (work package B5): fingerprint text, configuration, TLS options, the route -/
+
+/-! ## The fingerprint text and what a whitelist entry must look like -/
+
+/-- **fingerprint_text.** `request_peercert_digest` yields two characters of `0-9a-f` per digest octet —
+    lower-case, no separators — and two certificates get the same text only with the same digest. -/
+theorem fingerprint_text (sha : Bytes → Bytes) (der : Bytes) :
+    (fingerprintHex sha der).toList.length = 2 * (sha der).length ∧
+    (∀ c ∈ (fingerprintHex sha der).toList, ('0' ≤ c ∧ c ≤ '9') ∨ ('a' ≤ c ∧ c ≤ 'f')) ∧
+    (∀ der', fingerprintHex sha der = fingerprintHex sha der' → sha der = sha der') := by
+  have h := C17.hex_layout (sha der)
+  refine ⟨by simpa [fingerprintHex] using h.1, by simpa [fingerprintHex] using h.2, ?_⟩
+  intro der' he
+  apply C17.hex_injective
+  simpa [fingerprintHex, String.ofList_inj] using he
+
+/-- **entry_not_lowercase_never_admits.** The whitelist is compared as TEXT: an entry with any character
+    outside `0-9a-f` (an upper-case digit — which the configuration model accepts —, a colon, a blank)
+    equals no fingerprint, so it admits nobody. -/
+theorem entry_not_lowercase_never_admits (sha : Bytes → Bytes) (der : Bytes) (entry : String)
+    (h : ∃ c ∈ entry.toList, ¬ (('0' ≤ c ∧ c ≤ '9') ∨ ('a' ≤ c ∧ c ≤ 'f'))) :
+    fingerprintHex sha der ≠ entry := by
+  intro he
+  obtain ⟨c, hc, hn⟩ := h
+  rw [← he] at hc
+  exact hn ((fingerprint_text sha der).2.1 c hc)
+
+example : isHexDigestString "AB12" = true ∧ (∃ c ∈ "AB12".toList, ¬ (('0' ≤ c ∧ c ≤ '9') ∨ ('a' ≤ c ∧ c ≤ 'f'))) :=
+  ⟨by decide, 'A', by decide, by decide⟩
+example : fingerprintHex (fun _ => [0xE5, 0x82, 0x0A]) [1] = "e5820a" := by decide +kernel
+
+/-! ## The configuration model (config_wksr.py) -/
+
+/-- the defaults of the CURRENT tree (regenerated on every run) -/
+def currentDefaults : WksrDefaults :=
+  { ciphers := KskmGen.wksrCiphersDefault, requireClientCert := KskmGen.wksrRequireClientCertDefault,
+    clientWhitelist := KskmGen.wksrClientWhitelistDefault, maxSize := KskmGen.wksrMaxSizeDefault,
+    maxSizeGt := KskmGen.wksrMaxSizeGt, contentType := KskmGen.wksrContentTypeDefault,
+    uploadPath := KskmGen.wksrUploadPathDefault.toList.map Char.toNat }
+
+/-- the pattern `isHexDigestString` was derived from is still the one of the whitelist entries -/
+theorem whitelist_pattern_pinned : KskmGen.wksrWhitelistPattern = "^[0-9a-fA-F]+$" := by decide
+
+/-- the keys without a default, per model, as regenerated: in particular `require_client_cert` -/
+theorem required_keys_current_tree :
+    (KskmGen.wksrFields.filter (fun r => r.2.2.1)).map (fun r => (r.1, r.2.1)) =
+      [("WKSR_Config", "tls"), ("WKSR_Config", "ksr"), ("WKSR_Config", "templates"),
+       ("WKSR_TLS", "cert"), ("WKSR_TLS", "key"), ("WKSR_TLS", "ca_cert"), ("WKSR_TLS", "require_client_cert"),
+       ("WKSR_Templates", "upload"), ("WKSR_Templates", "result"), ("WKSR_Templates", "email"),
+       ("WKSR_Notify", "from"), ("WKSR_Notify", "to"), ("WKSR_Notify", "subject"), ("WKSR_Notify", "smtp_server")] := by
+  decide +kernel
+
+/-- **loadTls_ok_iff.** The `tls:` section loads exactly when the three files exist, `require_client_cert`
+    is given (or defaulted, where a default exists) and every GIVEN whitelist entry is a non-empty string
+    of hex digits; the loaded object then holds the given values, defaults elsewhere. -/
+theorem loadTls_ok_iff (dflt : WksrDefaults) (d : TlsDoc) (c : TlsCfg) :
+    loadTls dflt d = .ok c ↔
+      d.cert = .present true ∧ d.key = .present true ∧ d.caCert = .present true ∧
+      (d.requireClientCert.orElse fun _ => dflt.requireClientCert) = some c.requireClientCert ∧
+      (∀ l, d.clientWhitelist = some l → ∀ s ∈ l, isHexDigestString s = true) ∧
+      c.ciphers = d.ciphers.getD dflt.ciphers ∧
+      c.clientWhitelist = d.clientWhitelist.getD dflt.clientWhitelist := by
+  have hok : ∀ k : FileKey, k.ok = true ↔ k = .present true := by
+    intro k; cases k with
+    | absent => simp [FileKey.ok]
+    | present b => cases b <;> simp [FileKey.ok]
+  unfold loadTls
+  by_cases hf : (d.cert.ok && d.key.ok && d.caCert.ok) = true
+  · have hf' := hf
+    simp only [Bool.and_eq_true, hok] at hf'
+    obtain ⟨⟨h1, h2⟩, h3⟩ := hf'
+    simp only [h1, h2, h3, FileKey.ok, Bool.and_self, Bool.not_true, Bool.false_eq_true, ↓reduceIte, true_and]
+    cases hr : (d.requireClientCert.orElse fun _ => dflt.requireClientCert) with
+    | none => simp [err]
+    | some r =>
+      cases hw : d.clientWhitelist with
+      | none =>
+        simp only [Bool.not_true, Bool.false_eq_true, ↓reduceIte, pure, Except.pure, Except.ok.injEq]
+        constructor
+        · rintro rfl; simp
+        · rintro ⟨h4, _, h5, h6⟩
+          cases c; simp_all
+      | some l =>
+        by_cases hl : l.all isHexDigestString = true
+        · simp only [hl, Bool.not_true, Bool.false_eq_true, ↓reduceIte, pure, Except.pure, Except.ok.injEq]
+          constructor
+          · rintro rfl
+            refine ⟨rfl, ?_, rfl, rfl⟩
+            intro l' hl' s hs
+            cases hl'
+            exact List.all_eq_true.mp hl s hs
+          · rintro ⟨h4, _, h5, h6⟩
+            cases c; simp_all
+        · simp only [hl, Bool.not_false, ↓reduceIte, err]
+          constructor
+          · intro h; cases h
+          · rintro ⟨_, h5, _⟩
+            exact absurd (List.all_eq_true.mpr (h5 l rfl)) hl
+  · have hf' := hf
+    simp only [Bool.and_eq_true, hok, not_and] at hf'
+    simp only [hf, Bool.not_false, ↓reduceIte, err]
+    constructor
+    · intro h; cases h
+    · rintro ⟨h1, h2, h3, _⟩
+      exact absurd h3 (hf' ⟨h1, h2⟩)
+
+/-- **loadKsrSection_ok_iff.** The `ksr:` section loads exactly when a GIVEN `max_size` exceeds the bound
+    and a given `ksrsigner_configfile` exists. -/
+theorem loadKsrSection_ok_iff (dflt : WksrDefaults) (d : KsrDoc) (s : KsrSection) :
+    loadKsrSection dflt d = .ok s ↔
+      (∀ m, d.maxSize = some m → m > dflt.maxSizeGt) ∧ d.ksrsignerConfigfile ≠ .present false ∧
+      s = { maxSize := d.maxSize.getD dflt.maxSize, contentType := d.contentType.getD dflt.contentType,
+            uploadPath := d.uploadPath.getD dflt.uploadPath,
+            hasSignerConfig := d.ksrsignerConfigfile == .present true } := by
+  unfold loadKsrSection
+  cases hm : d.maxSize with
+  | none =>
+    by_cases hk : d.ksrsignerConfigfile = .present false
+    · simp [hk, err]
+    · constructor
+      · intro h
+        simp [hk, pure, Except.pure] at h
+        exact ⟨by simp, hk, h.symm⟩
+      · rintro ⟨_, _, rfl⟩
+        simp [hk, pure, Except.pure]
+  | some m =>
+    by_cases hgt : m > dflt.maxSizeGt
+    · by_cases hk : d.ksrsignerConfigfile = .present false
+      · simp [hgt, hk, err]
+      · constructor
+        · intro h
+          simp [hgt, hk, pure, Except.pure] at h
+          exact ⟨by simpa using hgt, hk, h.symm⟩
+        · rintro ⟨_, _, rfl⟩
+          simp [hgt, hk, pure, Except.pure]
+    · constructor
+      · intro h; simp [hgt, err] at h
+      · rintro ⟨h1, _⟩; exact absurd (h1 m rfl) hgt
+
+/-- **config_current_tree.** Under the defaults of the current tree: a document that does not say
+    `require_client_cert` is refused; every loaded whitelist consists of hex strings; every loaded size
+    limit is positive, and an unset one is 1 MiB; the content type defaults to `application/xml` and the
+    upload directory to the relative path `upload`. -/
+theorem config_current_tree :
+    (∀ d, d.requireClientCert = none → loadTls currentDefaults d = err .validation) ∧
+    (∀ d c, loadTls currentDefaults d = .ok c →
+        d.requireClientCert = some c.requireClientCert ∧ ∀ s ∈ c.clientWhitelist, isHexDigestString s = true) ∧
+    (∀ d s, loadKsrSection currentDefaults d = .ok s → s.maxSize > 0) ∧
+    (∀ d s, loadKsrSection currentDefaults d = .ok s → d.maxSize = none → s.maxSize = 1048576) ∧
+    currentDefaults.contentType = "application/xml" ∧
+    parsePath currentDefaults.uploadPath = { absolute := false, parts := [[117, 112, 108, 111, 97, 100]] } := by
+  refine ⟨?_, ?_, ?_, ?_, by decide, by decide +kernel⟩
+  · intro d h
+    unfold loadTls
+    rw [h]
+    simp [currentDefaults, KskmGen.wksrRequireClientCertDefault, err]
+  · intro d c h
+    obtain ⟨_, _, _, hr, hw, _, hc⟩ := (loadTls_ok_iff _ _ _).mp h
+    constructor
+    · cases hd : d.requireClientCert with
+      | none => rw [hd] at hr; simp [currentDefaults, KskmGen.wksrRequireClientCertDefault] at hr
+      | some r => rw [hd] at hr; simpa using hr
+    · intro s hs
+      rw [hc] at hs
+      cases hd : d.clientWhitelist with
+      | none => rw [hd] at hs; simp [currentDefaults, KskmGen.wksrClientWhitelistDefault] at hs
+      | some l => rw [hd] at hs; exact hw l hd s (by simpa using hs)
+  · intro d s h
+    obtain ⟨hm, _, rfl⟩ := (loadKsrSection_ok_iff _ _ _).mp h
+    cases hd : d.maxSize with
+    | none => simp [currentDefaults, KskmGen.wksrMaxSizeDefault]
+    | some m =>
+      have := hm m hd
+      simp only [currentDefaults, KskmGen.wksrMaxSizeGt] at this
+      simpa using this
+  · intro d s h hn
+    obtain ⟨_, _, rfl⟩ := (loadKsrSection_ok_iff _ _ _).mp h
+    simp [hn, currentDefaults, KskmGen.wksrMaxSizeDefault]
+
+/-! ## What the TLS server is told (tools/wksr.py) -/
+
+/-- **tls_cert_reqs.** For every configuration: the server is told `CERT_REQUIRED` exactly when
+    `require_client_cert` is true, `CERT_OPTIONAL` exactly when it is false, and never `CERT_NONE`; the
+    cipher string is the configured list joined by colons. -/
+theorem tls_cert_reqs (tls : TlsCfg) (host : String) (port : Int) (debug : Bool) :
+    ((serverArgs tls host port debug).sslCertReqs = .certRequired ↔ tls.requireClientCert = true) ∧
+    ((serverArgs tls host port debug).sslCertReqs = .certOptional ↔ tls.requireClientCert = false) ∧
+    (serverArgs tls host port debug).sslCertReqs ≠ .certNone ∧
+    (serverArgs tls host port debug).sslCiphers = joinColon tls.ciphers := by
+  cases h : tls.requireClientCert <;> simp [serverArgs, certReqsOf, h]
+
+/-- **tls_requires_client_cert_current_tree.** In the tree as it is now (tables regenerated by reading
+    tools/wksr.py and by EXECUTING its `main()` with a recording `uvicorn.run`): `ssl_cert_reqs` is the
+    expression `certReqsOf` mirrors and is what `uvicorn.run` receives; executed, `true` gave CERT_REQUIRED,
+    `false` CERT_OPTIONAL, and a document without the key started no server; the whitelist middleware
+    is installed.  Client verification CAN be configured down to OPTIONAL — never to NONE — but not by
+    omission; see `optional_tls_still_needs_certificate` for what OPTIONAL then admits. -/
+theorem tls_requires_client_cert_current_tree :
+    KskmGen.wksrCertReqsExpr = "ssl.CERT_REQUIRED if app.config.tls.require_client_cert else ssl.CERT_OPTIONAL" ∧
+    ("ssl_cert_reqs", "ssl_cert_reqs") ∈ KskmGen.wksrUvicornKeywords ∧
+    ("ssl_ciphers", "':'.join(app.config.tls.ciphers)") ∈ KskmGen.wksrUvicornKeywords ∧
+    ("ssl_ca_certs", "str(app.config.tls.ca_cert)") ∈ KskmGen.wksrUvicornKeywords ∧
+    KskmGen.wksrCertReqsObserved =
+      [("true", some (certReqsOf true).toNat), ("false", some (certReqsOf false).toNat), ("absent", none)] ∧
+    KskmGen.sslVerifyModes =
+      [("CERT_NONE", CertReqs.certNone.toNat), ("CERT_OPTIONAL", CertReqs.certOptional.toNat),
+       ("CERT_REQUIRED", CertReqs.certRequired.toNat)] ∧
+    KskmGen.wksrRequireClientCertDefault = none ∧
+    KskmGen.wksrMiddleware = ["ClientCertificateWhitelist"] := by
+  refine ⟨by decide, by decide, by decide, by decide, by decide, by decide, by decide, by decide⟩
+
+/-! ## `POST /upload` behind the whitelist middleware -/
+
+/-- the client presented a parseable certificate whose fingerprint is on the list -/
+def Listed (parseOk : Bytes → Bool) (fp : Bytes → String) (whitelist : List String) (peer : Peer) : Prop :=
+  ∃ der, peer = .der der ∧ parseOk der = true ∧ fp der ∈ whitelist
+
+/-- a whitelist none of whose entries is lower-case hex (e.g. fingerprints pasted in upper case or with
+    colons — both of which a configuration may hold only in part: colons are refused, upper case is
+    accepted) lists NOBODY: every client is refused -/
+theorem non_lowercase_whitelist_lists_nobody (sha : Bytes → Bytes) (parseOk : Bytes → Bool) (whitelist : List String)
+    (h : ∀ e ∈ whitelist, ∃ c ∈ e.toList, ¬ (('0' ≤ c ∧ c ≤ '9') ∨ ('a' ≤ c ∧ c ≤ 'f'))) (peer : Peer) :
+    ¬ Listed parseOk (fingerprintHex sha) whitelist peer := by
+  rintro ⟨der, rfl, _, hm⟩
+  exact entry_not_lowercase_never_admits sha der _ (h _ hm) rfl
+
+section Route
+variable (parseOk : Bytes → Bool) (fp : Bytes → String) (whitelist : List String) (cfg : KsrCfg)
+  (hashHex : Bytes → String) (suffix : List Nat) (openOk : Bool) (validate : WPath → Res KsrStatus)
+  (smtp : Option String) (mailOk : Bool)
+
+/-- a listed client's request is the route's business, with the digest the middleware saw -/
+theorem handleUpload_listed (der : Bytes) (hp : parseOk der = true) (hm : fp der ∈ whitelist) (u : Upload) :
+    handleUpload parseOk (fun _ => true) fp whitelist (.der der) cfg hashHex suffix openOk validate smtp mailOk u =
+      uploadPost cfg hashHex suffix openOk validate (.ok (some (fp der))) smtp mailOk u := by
+  simp [handleUpload, dispatch, requestPeercertDigest, requestPeercert, hp, hm, bind, Except.bind, pure, Except.pure]
+
+/-- **upload_refused_unlisted.** For EVERY request (any file name, size, content type, body) of a client
+    that is not listed — no TLS object, no certificate, octets that are no certificate, a certificate
+    whose fingerprint is not on the list — the effect log is EMPTY: the body is not read, nothing is
+    written, nothing validated, no mail, no page; a parseable certificate is answered 403, the others end
+    in an exception.  (The whitelist comes before every gate of `save_ksr`.) -/
+theorem upload_refused_unlisted (peer : Peer) (u : Upload) (h : ¬ Listed parseOk fp whitelist peer) :
+    (handleUpload parseOk (fun _ => true) fp whitelist peer cfg hashHex suffix openOk validate smtp mailOk u).2 = [] ∧
+    ((∃ der, peer = .der der ∧ parseOk der = true) →
+      (handleUpload parseOk (fun _ => true) fp whitelist peer cfg hashHex suffix openOk validate smtp mailOk u).1
+        = .http 403) ∧
+    ((¬ ∃ der, peer = .der der ∧ parseOk der = true) →
+      ∃ k, (handleUpload parseOk (fun _ => true) fp whitelist peer cfg hashHex suffix openOk validate smtp mailOk u).1
+        = .exception (.error k)) := by
+  cases peer with
+  | noTls => simp [handleUpload, dispatch, requestPeercertDigest, requestPeercert, err, bind, Except.bind]
+  | noCert => simp [handleUpload, dispatch, requestPeercertDigest, requestPeercert, err, bind, Except.bind]
+  | der b =>
+    cases hp : parseOk b
+    · simp [handleUpload, dispatch, requestPeercertDigest, requestPeercert, hp, err, bind, Except.bind]
+    · have hm : fp b ∉ whitelist := fun hm => h ⟨b, rfl, hp, hm⟩
+      simp [handleUpload, dispatch, requestPeercertDigest, requestPeercert, hp, hm, bind, Except.bind, pure,
+        Except.pure]
+
+/-- **optional_tls_still_needs_certificate.** Whatever `require_client_cert` says: a client that presents
+    no certificate (possible under CERT_OPTIONAL) never reaches the route — the middleware ends in a
+    `TypeError`, with an empty effect log. -/
+theorem optional_tls_still_needs_certificate (truthy : Bytes → Bool) (u : Upload) :
+    handleUpload parseOk truthy fp whitelist .noCert cfg hashHex suffix openOk validate smtp mailOk u =
+      (.exception (.error .type), []) := rfl
+
+/-- **upload_gate_failure.** For a listed client: wrong content type → 400, no size → 400, over-size → 413,
+    each with an EMPTY effect log (body unread, nothing written, nothing validated, no mail). -/
+theorem upload_gate_failure (der : Bytes) (hp : parseOk der = true) (hm : fp der ∈ whitelist) (u : Upload) :
+    (u.contentType ≠ some cfg.contentType →
+      handleUpload parseOk (fun _ => true) fp whitelist (.der der) cfg hashHex suffix openOk validate smtp mailOk u
+        = (.http 400, [])) ∧
+    (u.contentType = some cfg.contentType → u.size = none →
+      handleUpload parseOk (fun _ => true) fp whitelist (.der der) cfg hashHex suffix openOk validate smtp mailOk u
+        = (.http 400, [])) ∧
+    (u.contentType = some cfg.contentType → ∀ size, u.size = some size → size > cfg.maxSize →
+      handleUpload parseOk (fun _ => true) fp whitelist (.der der) cfg hashHex suffix openOk validate smtp mailOk u
+        = (.http 413, [])) := by
+  obtain ⟨g1, g2, g3⟩ := gates_before_write cfg hashHex suffix openOk u
+  rw [handleUpload_listed parseOk fp whitelist cfg hashHex suffix openOk validate smtp mailOk der hp hm u]
+  refine ⟨fun h => ?_, fun h1 h2 => ?_, fun h1 size h2 h3 => ?_⟩
+  · simp [uploadPost, g1 h]
+  · simp [uploadPost, g2 h1 h2]
+  · simp [uploadPost, g3 h1 size h2 h3]
+
+/-- **upload_page_iff.** The result page with status `st`, stored path `p`, hash `h` and client digest `dg`
+    is produced exactly when: the client is listed, `save_ksr` stored the upload at `p` with hash `h`,
+    `validate_ksr` ON THAT PATH returned `st`, `dg` is the client's fingerprint, and the notification (if
+    one is configured) went through. -/
+theorem upload_page_iff (peer : Peer) (u : Upload) (st : KsrStatus) (p : WPath) (h : String) (dg : Option String) :
+    (handleUpload parseOk (fun _ => true) fp whitelist peer cfg hashHex suffix openOk validate smtp mailOk u).1
+        = .page st p h dg ↔
+      Listed parseOk fp whitelist peer ∧ (saveKsr cfg hashHex suffix openOk u).1 = .ok (p, h) ∧
+      validate p = .ok st ∧ (∃ der, peer = .der der ∧ dg = some (fp der)) ∧
+      (notifyActive smtp = true → mailOk = true) := by
+  by_cases hl : Listed parseOk fp whitelist peer
+  · obtain ⟨der, rfl, hp, hm⟩ := hl
+    rw [handleUpload_listed parseOk fp whitelist cfg hashHex suffix openOk validate smtp mailOk der hp hm u]
+    have hl' : Listed parseOk fp whitelist (.der der) := ⟨der, rfl, hp, hm⟩
+    unfold uploadPost
+    rcases hs : saveKsr cfg hashHex suffix openOk u with ⟨r, effs⟩
+    cases r with
+    | error e => cases e <;> simp
+    | ok ph =>
+      obtain ⟨p', h'⟩ := ph
+      dsimp only
+      cases hv : validate p' with
+      | error f =>
+        constructor
+        · intro hx; simp at hx
+        · rintro ⟨_, hs2, hv', _⟩
+          simp only [Except.ok.injEq, Prod.mk.injEq] at hs2
+          obtain ⟨rfl, rfl⟩ := hs2
+          rw [hv] at hv'; cases hv'
+      | ok st' =>
+        have fwd : (RouteOut.page st' p' h' (some (fp der)) = RouteOut.page st p h dg) →
+            (Except.ok (p', h') : Except SaveFail (WPath × String)) = .ok (p, h) ∧ validate p = .ok st ∧
+              ∃ der', Peer.der der = .der der' ∧ dg = some (fp der') := by
+          intro hx
+          simp only [RouteOut.page.injEq] at hx
+          obtain ⟨rfl, rfl, rfl, rfl⟩ := hx
+          exact ⟨rfl, hv, der, rfl, rfl⟩
+        have bwd : (Except.ok (p', h') : Except SaveFail (WPath × String)) = .ok (p, h) → validate p = .ok st →
+            (∃ der', Peer.der der = .der der' ∧ dg = some (fp der')) →
+            RouteOut.page st' p' h' (some (fp der)) = RouteOut.page st p h dg := by
+          intro hs2 hv' hd
+          simp only [Except.ok.injEq, Prod.mk.injEq] at hs2
+          obtain ⟨rfl, rfl⟩ := hs2
+          obtain ⟨der', hd1, rfl⟩ := hd
+          cases hd1
+          rw [hv] at hv'; cases hv'; rfl
+        cases hn : notifyActive smtp
+        · simp only [Bool.false_eq_true, ↓reduceIte]
+          constructor
+          · intro hx
+            obtain ⟨a, b, c⟩ := fwd hx
+            exact ⟨hl', a, b, c, by simp⟩
+          · rintro ⟨_, a, b, c, _⟩; exact bwd a b c
+        · cases mailOk
+          · simp only [↓reduceIte, Bool.false_eq_true]
+            constructor
+            · intro hx; simp at hx
+            · rintro ⟨_, _, _, _, hmail⟩; simp at hmail
+          · simp only [↓reduceIte]
+            constructor
+            · intro hx
+              obtain ⟨a, b, c⟩ := fwd hx
+              exact ⟨hl', a, b, c, by simp⟩
+            · rintro ⟨_, a, b, c, _⟩; exact bwd a b c
+  · have hr := (upload_refused_unlisted parseOk fp whitelist cfg hashHex suffix openOk validate smtp mailOk peer u hl)
+    constructor
+    · intro hx
+      by_cases hd : ∃ der, peer = .der der ∧ parseOk der = true
+      · rw [hr.2.1 hd] at hx; cases hx
+      · obtain ⟨k, hk⟩ := hr.2.2 hd; rw [hk] at hx; cases hx
+    · rintro ⟨hl', _⟩; exact absurd hl' hl
+
+/-- **upload_ok_iff_signer_ok.** End to end, with `validate_ksr` in the route: the client is shown `OK`
+    exactly when it is listed, the upload passed the gates and was stored, and the signer's own checks
+    accept the stored KSR: the ksrsigner configuration loaded, the file parsed, `validate_request` accepts
+    under the configured policy and — with a previous SKR — the token-less `check_skr_and_ksr` accepts
+    (and a configured notification went through). -/
+theorem upload_ok_iff_signer_ok (verify : Verifier) (now : Int) (scfg : Res RequestPolicy)
+    (prev : Option (Res Response)) (parsed : WPath → Res Request)
+    (peer : Peer) (u : Upload) (p : WPath) (h : String) (dg : Option String) :
+    (handleUpload parseOk (fun _ => true) fp whitelist peer cfg hashHex suffix openOk
+        (fun q => validateKsr verify now scfg prev (parsed q)) smtp mailOk u).1 = .page .OK p h dg ↔
+      Listed parseOk fp whitelist peer ∧ (saveKsr cfg hashHex suffix openOk u).1 = .ok (p, h) ∧
+      (∃ pol ksr, scfg = .ok pol ∧ parsed p = .ok ksr ∧ validateRequest verify now ksr pol = .ok () ∧
+        (prev = none ∨ ∃ skr, prev = some (.ok skr) ∧ checkSkrAndKsr ksr skr pol none = .ok ())) ∧
+      (∃ der, peer = .der der ∧ dg = some (fp der)) ∧ (notifyActive smtp = true → mailOk = true) := by
+  rw [upload_page_iff, verdict_iff]
+
+/-- **upload_effects_order.** When `save_ksr` stored the upload, the effect log of the request is: read
+    the body, the clock, open `p`, write the body to `p`, log; then `validate_ksr` on THE SAME `p`; then
+    — whatever the verdict — at most the mail and the page.  So what is judged is what was stored, and it
+    was stored before it was judged: an upload that is then reported `ERROR`, or whose validation raises,
+    stays in the upload directory. -/
+theorem upload_effects_order (der : Bytes) (hp : parseOk der = true) (hm : fp der ∈ whitelist) (u : Upload)
+    (p : WPath) (h : String) (hs : (saveKsr cfg hashHex suffix openOk u).1 = .ok (p, h)) :
+    ∃ tail, (handleUpload parseOk (fun _ => true) fp whitelist (.der der) cfg hashHex suffix openOk validate smtp
+        mailOk u).2 =
+      [.save .readBody, .save .now, .save (.openWrite p), .save (.write p u.body), .save .logSaved, .validate p]
+        ++ tail ∧
+      (tail = [] ∨ tail = [.mail] ∨ tail = [.mail, .respond] ∨ tail = [.respond]) := by
+  rw [handleUpload_listed parseOk fp whitelist cfg hashHex suffix openOk validate smtp mailOk der hp hm u]
+  obtain ⟨_, _, _, _, he⟩ := write_once_inside cfg hashHex suffix openOk u p h hs
+  unfold uploadPost
+  rcases hs' : saveKsr cfg hashHex suffix openOk u with ⟨r, effs⟩
+  rw [hs'] at hs he
+  simp only at hs he
+  subst hs he
+  cases hv : validate p with
+  | error f => exact ⟨[], by simp [hv], Or.inl rfl⟩
+  | ok st =>
+    cases hn : notifyActive smtp <;> cases mailOk
+    · exact ⟨[.respond], by simp [hv], by simp⟩
+    · exact ⟨[.respond], by simp [hv], by simp⟩
+    · exact ⟨[.mail], by simp [hv], by simp⟩
+    · exact ⟨[.mail, .respond], by simp [hv], by simp⟩
+
+/-- **upload_disk_needs_listed_and_gates.** Any effect of a request that touches the disk implies a listed
+    client and an upload that passed all three gates. -/
+theorem upload_disk_needs_listed_and_gates (peer : Peer) (u : Upload) (e : RouteEffect)
+    (he : e ∈ (handleUpload parseOk (fun _ => true) fp whitelist peer cfg hashHex suffix openOk validate smtp
+      mailOk u).2) :
+    Listed parseOk fp whitelist peer ∧ u.contentType = some cfg.contentType ∧
+      ∃ size, u.size = some size ∧ size ≤ cfg.maxSize := by
+  by_cases hl : Listed parseOk fp whitelist peer
+  · refine ⟨hl, ?_⟩
+    obtain ⟨der, rfl, hp, hm⟩ := hl
+    rw [handleUpload_listed parseOk fp whitelist cfg hashHex suffix openOk validate smtp mailOk der hp hm u] at he
+    by_cases h1 : u.contentType = some cfg.contentType
+    · refine ⟨h1, ?_⟩
+      cases h2 : u.size with
+      | none => simp [uploadPost, saveKsr, h1, h2] at he
+      | some size =>
+        by_cases h3 : size > cfg.maxSize
+        · simp [uploadPost, saveKsr, h1, h2, h3] at he
+        · exact ⟨size, rfl, by omega⟩
+    · simp [uploadPost, saveKsr, h1] at he
+  · rw [(upload_refused_unlisted parseOk fp whitelist cfg hashHex suffix openOk validate smtp mailOk peer u hl).1] at he
+    cases he
+
+/-- **upload_writes_confined.** End to end, for EVERY request (any peer, file name, size, content type,
+    body) and every clock string of the suffix shape: whatever the request writes, it writes the body, to
+    the upload directory extended by exactly one component — the washed name + timestamp + `.xml`, which
+    contains no separator. -/
+theorem upload_writes_confined (peer : Peer) (u : Upload) (p : WPath) (data : Bytes) (hsfx : SuffixShape suffix)
+    (he : RouteEffect.save (.write p data) ∈ (handleUpload parseOk (fun _ => true) fp whitelist peer cfg hashHex
+      suffix openOk validate smtp mailOk u).2) :
+    data = u.body ∧ p.parent = cfg.uploadPath ∧
+      p.name = wash (pyStrOpt u.filename) ++ suffix ++ dotXml ∧ 47 ∉ p.name ∧ 0 ∉ p.name ∧
+      p.name ≠ [46, 46] := by
+  have hc := path_confined cfg.uploadPath u.filename suffix hsfx
+  simp only at hc
+  obtain ⟨c47, c0, _, _, cdd, _, _, cpar, cname⟩ := hc
+  obtain ⟨hl, h1, size, h2, h3⟩ :=
+    upload_disk_needs_listed_and_gates parseOk fp whitelist cfg hashHex suffix openOk validate smtp mailOk peer u _ he
+  obtain ⟨der, rfl, hp, hm⟩ := hl
+  cases openOk with
+  | false =>
+    rw [handleUpload_listed parseOk fp whitelist cfg hashHex suffix false validate smtp mailOk der hp hm u] at he
+    have h3' : ¬ size > cfg.maxSize := by omega
+    simp [uploadPost, saveKsr, h1, h2, h3'] at he
+  | true =>
+    have h3' : ¬ size > cfg.maxSize := by omega
+    have hs' : (saveKsr cfg hashHex suffix true u).1 =
+        .ok (savePath cfg.uploadPath (wash (pyStrOpt u.filename)) suffix, hashHex u.body) := by
+      simp [saveKsr, h1, h2, h3']
+    obtain ⟨tail, heq, htail⟩ :=
+      upload_effects_order parseOk fp whitelist cfg hashHex suffix true validate smtp mailOk der hp hm u _ _ hs'
+    rw [heq] at he
+    have : p = savePath cfg.uploadPath (wash (pyStrOpt u.filename)) suffix ∧ data = u.body := by
+      rcases htail with rfl | rfl | rfl | rfl <;> simpa using he
+    obtain ⟨rfl, rfl⟩ := this
+    exact ⟨rfl, cpar, cname, by rw [cname]; exact c47, by rw [cname]; exact c0, by rw [cname]; exact cdd⟩
+
+end Route
+
+/-! ### Non-vacuity of the route theorems -/
+
+def exTls : TlsDoc :=
+  { cert := .present true, key := .present true, caCert := .present true, ciphers := none,
+    requireClientCert := some false, clientWhitelist := some ["ab", "AB"] }
+example : (loadTls currentDefaults exTls).toOption.map (·.clientWhitelist) = some ["ab", "AB"] := by decide +kernel
+example : loadTls currentDefaults { exTls with clientWhitelist := some ["ab:cd"] } = err .validation := by decide +kernel
+example : loadTls currentDefaults { exTls with clientWhitelist := some [""] } = err .validation := by decide +kernel
+example : loadTls currentDefaults { exTls with requireClientCert := none } = err .validation := by decide +kernel
+def exKsrDoc : KsrDoc := { maxSize := some 1, contentType := none, uploadPath := none, ksrsignerConfigfile := .absent }
+example : loadKsrSection currentDefaults { exKsrDoc with maxSize := some 0 } = err .validation := by decide +kernel
+example : loadKsrSection currentDefaults { exKsrDoc with ksrsignerConfigfile := .present false } = err .validation := by
+  decide +kernel
+example : (loadKsrSection currentDefaults exKsrDoc).toOption.map (·.maxSize) = some 1 := by decide +kernel
+example : (serverArgs { ciphers := ["A", "B"], requireClientCert := false, clientWhitelist := [] } "h" 1 false)
+    = { host := "h", port := 1, logLevel := "info", sslCiphers := "A:B", sslCertReqs := .certOptional } := by
+  decide +kernel
+
+/-- a listed client, a good upload, the signer's checks accept, mail configured and delivered: the page says OK … -/
+example : (handleUpload (fun _ => true) (fun _ => true) (fun _ => "ab") ["ab"] (.der [1]) exCfg (fun _ => "h") [95, 49] true
+    (fun _ => validateKsr anyVerifier 0 (.ok exPol) none (.ok exReq)) (some "mx") true exUpload).1
+    = .page .OK (savePath exCfg.uploadPath (wash [97, 47, 98]) [95, 49]) "h" (some "ab") := by decide +kernel
+/-- … the write of that request (hypothesis of `upload_writes_confined`) … -/
+example : RouteEffect.save (.write (savePath exCfg.uploadPath (wash [97, 47, 98]) [95, 49]) [1, 2, 3]) ∈
+    (handleUpload (fun _ => true) (fun _ => true) (fun _ => "ab") ["ab"] (.der [1]) exCfg (fun _ => "h") [95, 49] true
+      (fun _ => validateKsr anyVerifier 0 (.ok exPol) none (.ok exReq)) (some "mx") true exUpload).2 := by decide +kernel
+/-- … ERROR under a policy the KSR violates (the file is stored all the same) … -/
+example : (handleUpload (fun _ => true) (fun _ => true) (fun _ => "ab") ["ab"] (.der [1]) exCfg (fun _ => "h") [95, 49] true
+    (fun _ => validateKsr anyVerifier 0 (.ok { exPol with numBundles := 9 }) none (.ok exReq)) none true exUpload).2.length
+    = 7 := by decide +kernel
+/-- … and an unlisted client with the same request: 403 and nothing happened. -/
+example : handleUpload (fun _ => true) (fun _ => true) (fun _ => "ab") ["AB"] (.der [1]) exCfg (fun _ => "h") [95, 49] true
+    (fun _ => validateKsr anyVerifier 0 (.ok exPol) none (.ok exReq)) none true exUpload = (.http 403, []) := by
+  decide +kernel
 
 end Kskm.C20
